@@ -251,13 +251,9 @@ namespace IrVerif.Path
 theorem walk_step_link (fs : FS) (f : Nat) (cur : Loc) (c : Str) (rest : List Str) (t : Str)
     (hd : fs.get cur = some Node.dir) (h1 : ¬ (c = [] ∨ c = DOT)) (h2 : c ≠ DOTDOT)
     (hn : fs.get (cur ++ [c]) = some (Node.link t)) :
-    walk fs (f + 1) cur (c :: rest) true =
-      (match walk fs f (startLoc cur t) (splitSep t) true with
-       | none => none
-       | some l1 => walk fs (f + 1) l1 rest true) := by
+    walk fs (f + 1) cur (c :: rest) true = walk fs f (startLoc cur t) (splitSep t ++ rest) true := by
   rw [walk]
   simp only [hd, h1, h2, if_false, hn, Bool.true_eq_false, and_false]
-  split <;> simp_all
 
 theorem walk_step_link_zero (fs : FS) (cur : Loc) (c : Str) (rest : List Str) (t : Str)
     (hd : fs.get cur = some Node.dir) (h1 : ¬ (c = [] ∨ c = DOT)) (h2 : c ≠ DOTDOT)
@@ -266,16 +262,16 @@ theorem walk_step_link_zero (fs : FS) (cur : Loc) (c : Str) (rest : List Str) (t
   rw [walk]
   simp only [hd, h1, h2, if_false, hn, Bool.true_eq_false, and_false]
 
-/-- what a successful walk (following links) did at its first component -/
+/-- what a successful walk (following links) did at its first component; following a link costs one
+unit of the link budget and continues with the target's components in front of the remaining ones -/
 inductive WalkStep (fs : FS) (f : Nat) (cur : Loc) (c : Str) (rest : List Str) (l : Loc) : Prop
   | skip : (c = [] ∨ c = DOT) → walk fs f cur rest true = some l → WalkStep fs f cur c rest l
   | up : c = DOTDOT → walk fs f cur.dropLast rest true = some l → WalkStep fs f cur c rest l
   | plain (n : Node) : ¬ (c = [] ∨ c = DOT) → c ≠ DOTDOT → fs.get (cur ++ [c]) = some n →
       (∀ t, n ≠ Node.link t) → walk fs f (cur ++ [c]) rest true = some l → WalkStep fs f cur c rest l
-  | link (t : Str) (f' : Nat) (l1 : Loc) : ¬ (c = [] ∨ c = DOT) → c ≠ DOTDOT →
+  | link (t : Str) (f' : Nat) : ¬ (c = [] ∨ c = DOT) → c ≠ DOTDOT →
       fs.get (cur ++ [c]) = some (Node.link t) → f = f' + 1 →
-      walk fs f' (startLoc cur t) (splitSep t) true = some l1 →
-      walk fs f l1 rest true = some l → WalkStep fs f cur c rest l
+      walk fs f' (startLoc cur t) (splitSep t ++ rest) true = some l → WalkStep fs f cur c rest l
 
 theorem walk_cons_inv (fs : FS) (f : Nat) (cur : Loc) (c : Str) (rest : List Str) (l : Loc)
     (h : walk fs f cur (c :: rest) true = some l) :
@@ -311,15 +307,11 @@ theorem walk_cons_inv (fs : FS) (f : Nat) (cur : Loc) (c : Str) (rest : List Str
             | zero => simp at h
             | succ f' =>
               simp only at h
-              cases hw : walk fs f' (startLoc cur t) (splitSep t) true with
-              | none => simp [hw] at h
-              | some l1 =>
-                simp only [hw] at h
-                exact WalkStep.link t f' l1 h1 h2 hn rfl hw h
+              exact WalkStep.link t f' h1 h2 hn rfl h
   · rw [walk_not_dir fs f cur c rest true hd] at h
     exact absurd h (by simp)
 
-/-- more fuel does not change a successful walk -/
+/-- a larger link budget does not change a successful walk -/
 theorem walk_mono (fs : FS) : ∀ (f : Nat) (comps : List Str) (cur l : Loc) (g : Nat),
     walk fs f cur comps true = some l → f ≤ g → walk fs g cur comps true = some l := by
   intro f
@@ -336,20 +328,91 @@ theorem walk_mono (fs : FS) : ∀ (f : Nat) (comps : List Str) (cur l : Loc) (g 
       | up h2 hw => subst h2; rw [walk_step_up fs g cur rest true hd]; exact ih _ _ g hw hg
       | plain n h1 h2 hn hnl hw =>
         rw [walk_step_plain fs g cur c rest true hd h1 h2 n hn hnl]; exact ih _ _ g hw hg
-      | link t f' l1 h1 h2 hn hf hw1 hw2 =>
+      | link t f' h1 h2 hn hf hw =>
         subst hf
         obtain ⟨g', rfl⟩ : ∃ g', g = g' + 1 := ⟨g - 1, by omega⟩
-        rw [walk_step_link fs g' cur c rest t hd h1 h2 hn,
-          ihf f' (by omega) _ _ _ g' hw1 (by omega)]
-        exact ih _ _ _ hw2 hg
+        rw [walk_step_link fs g' cur c rest t hd h1 h2 hn]
+        exact ihf f' (by omega) _ _ _ g' hw (by omega)
 
-/-- the result of a successful walk does not depend on the fuel -/
+/-- the result of a successful walk does not depend on the link budget -/
 theorem walk_det (fs : FS) (f g : Nat) (comps : List Str) (cur l1 l2 : Loc)
     (h1 : walk fs f cur comps true = some l1) (h2 : walk fs g cur comps true = some l2) : l1 = l2 := by
   have a := walk_mono fs f comps cur l1 (max f g) h1 (Nat.le_max_left _ _)
   have b := walk_mono fs g comps cur l2 (max f g) h2 (Nat.le_max_right _ _)
   rw [a] at b
   exact Option.some.inj b
+
+/-- a successful walk over `a ++ b` splits: the part over `a` follows `k` links at most and reaches
+some `d`, the part over `b` continues from `d` with the links that are left -/
+theorem walk_append_inv (fs : FS) : ∀ (f : Nat) (a : List Str) (cur : Loc) (b : List Str) (l : Loc),
+    walk fs f cur (a ++ b) true = some l →
+    ∃ d k, k ≤ f ∧ walk fs k cur a true = some d ∧ walk fs (f - k) d b true = some l := by
+  intro f
+  induction f using Nat.strongRecOn with
+  | _ f ihf =>
+    intro a
+    induction a with
+    | nil =>
+      intro cur b l h
+      exact ⟨cur, 0, Nat.zero_le _, walk_nil .., by simpa using h⟩
+    | cons c a ih =>
+      intro cur b l h
+      rw [List.cons_append] at h
+      obtain ⟨hd, st⟩ := walk_cons_inv fs f cur c (a ++ b) l h
+      cases st with
+      | skip h1 hw =>
+        obtain ⟨d, k, hk, ha, hb⟩ := ih _ _ _ hw
+        exact ⟨d, k, hk, by rw [walk_step_skip fs k cur c a true hd h1]; exact ha, hb⟩
+      | up h2 hw =>
+        subst h2
+        obtain ⟨d, k, hk, ha, hb⟩ := ih _ _ _ hw
+        exact ⟨d, k, hk, by rw [walk_step_up fs k cur a true hd]; exact ha, hb⟩
+      | plain n h1 h2 hn hnl hw =>
+        obtain ⟨d, k, hk, ha, hb⟩ := ih _ _ _ hw
+        exact ⟨d, k, hk, by rw [walk_step_plain fs k cur c a true hd h1 h2 n hn hnl]; exact ha, hb⟩
+      | link t f' h1 h2 hn hf hw =>
+        subst hf
+        rw [← List.append_assoc] at hw
+        obtain ⟨d, k, hk, ha, hb⟩ := ihf f' (by omega) _ _ _ _ hw
+        refine ⟨d, k + 1, by omega, ?_, ?_⟩
+        · rw [walk_step_link fs k cur c a t hd h1 h2 hn]; exact ha
+        · have : f' + 1 - (k + 1) = f' - k := by omega
+          rw [this]; exact hb
+
+/-- the converse: budgets add up -/
+theorem walk_append_of (fs : FS) : ∀ (k : Nat) (a : List Str) (cur d : Loc) (j : Nat) (b : List Str) (l : Loc),
+    walk fs k cur a true = some d → walk fs j d b true = some l →
+    walk fs (k + j) cur (a ++ b) true = some l := by
+  intro k
+  induction k using Nat.strongRecOn with
+  | _ k ihk =>
+    intro a
+    induction a with
+    | nil =>
+      intro cur d j b l ha hb
+      rw [walk_nil] at ha; cases ha
+      exact walk_mono fs j b cur l (k + j) hb (by omega)
+    | cons c a ih =>
+      intro cur d j b l ha hb
+      rw [List.cons_append]
+      obtain ⟨hd, st⟩ := walk_cons_inv fs k cur c a d ha
+      cases st with
+      | skip h1 hw => rw [walk_step_skip fs _ cur c _ true hd h1]; exact ih _ _ _ _ _ hw hb
+      | up h2 hw => subst h2; rw [walk_step_up fs _ cur _ true hd]; exact ih _ _ _ _ _ hw hb
+      | plain n h1 h2 hn hnl hw =>
+        rw [walk_step_plain fs _ cur c _ true hd h1 h2 n hn hnl]; exact ih _ _ _ _ _ hw hb
+      | link t k' h1 h2 hn hf hw =>
+        subst hf
+        have e : k' + 1 + j = (k' + j) + 1 := by omega
+        rw [e, walk_step_link fs (k' + j) cur c _ t hd h1 h2 hn, ← List.append_assoc]
+        exact ihk k' (by omega) _ _ _ _ _ _ hw hb
+
+/-- with one budget for both parts (a larger budget never hurts) -/
+theorem walk_append_some (fs : FS) (f : Nat) (a : List Str) (cur : Loc) (b : List Str) (l : Loc)
+    (h : walk fs f cur (a ++ b) true = some l) :
+    ∃ d, walk fs f cur a true = some d ∧ walk fs f d b true = some l := by
+  obtain ⟨d, k, hk, ha, hb⟩ := walk_append_inv fs f a cur b l h
+  exact ⟨d, walk_mono fs k a cur d f ha hk, walk_mono fs (f - k) b d l f hb (by omega)⟩
 
 /-- least fuel for which a walk succeeds -/
 theorem exists_min_fuel (P : Nat → Prop) (f : Nat) (h : P f) : ∃ m, P m ∧ m ≤ f ∧ ∀ g, P g → m ≤ g := by
